@@ -47,7 +47,7 @@ def _call(ctx, A, q0, q1, sig, nontrivial=True):
         if isinstance(pres, tuple) and len(pres) == 3 and np.asarray(pres[0]).ndim == 2:
             e = oracles.pow2_exponent(pA)
             pAs, pR = oracles.ldexp(pA, -e), oracles.ldexp(np.asarray(pres[1]), -e)
-            ctx.close('qr.previous-result-still-valid', float(np.linalg.norm(np.asarray(pres[0]) @ pR - pAs)), 1e-11 * max(float(np.linalg.norm(pAs)), 1e-300) + 0.0,
+            ctx.close('qr.previous-result-still-valid', float(np.linalg.norm(np.asarray(pres[0]) @ pR - pAs)), (1e-4 if oracles.is_single(pA) else 1e-11) * max(float(np.linalg.norm(pAs)), 1e-300) + 0.0,
                       'the result of an earlier qr call was altered by a later call', {'A': pA})
     _PREV.append((A0, res))
     return res
@@ -113,6 +113,9 @@ def random_case(ctx, idx, rng):
         A = gen.block_matrix(rng, q0, q1, kind)
     scale = float(rng.choice([1, 1, 1e-30, 1e30, 1e-3, 1e-170, 1e170, 1e-280, 1e280]))      # beyond 1e+-154 the squares of the entries leave the double range
     A = A * scale
+    if scale == 1 and kind in ('complex', 'real', 'deficient', 'nearstruct') and rng.random() < 0.25:
+        A = A.astype(np.complex64 if np.iscomplexobj(A) else np.float32)          # single precision input (oracle tolerance 1e-4)
+        kind = kind + '-single'
     A, mem = gen.memory_layout(rng, A)
     shared = len(np.intersect1d(q0, q1))
     sig = (shape_kind, lay, kind, _sortclass(np.asarray(q0), np.asarray(q1)), 'disjoint' if shared == 0 else 'shared', f'scale{scale:g}', mem, 'q-lists' if isinstance(q0, list) else 'q-arrays')
